@@ -5,7 +5,6 @@ import (
 	"errors"
 	"fmt"
 	"io"
-	"os"
 	"sort"
 	"strings"
 	"sync"
@@ -25,6 +24,7 @@ import (
 	"pgregory.net/rapid"
 
 	"verif/internal/hx"
+	"verif/internal/kf"
 	"verif/internal/memnet"
 	"verif/internal/scripted"
 	"verif/internal/stats"
@@ -254,8 +254,8 @@ func drawHPScenario(rt *rapid.T) *hpScenario {
 	// initial conns: at most one outbound relayed, at most one outbound direct, inbound ones freely
 	shapes := [][]hpInit{
 		{{cls: clsL}}, {{cls: clsL}}, {{cls: clsL}}, {{cls: clsU}},
-		{{cls: clsD}}, {{cls: clsD}},
-		{{cls: clsL}, {cls: clsD}},
+		{{cls: clsD}}, {{cls: clsD}}, {{cls: clsD}},
+		{{cls: clsL}, {cls: clsD}}, {{cls: clsU}, {cls: clsD}},
 		{{cls: clsL, inbound: true}}, {{cls: clsU, inbound: true}},
 		{{cls: clsD, inbound: true}},
 		{{cls: clsL}, {cls: clsL, inbound: true}},
@@ -289,7 +289,7 @@ func drawHPScenario(rt *rapid.T) *hpScenario {
 		case k <= 4 && len(sc.initial) > 0:
 			a.kind = actInject
 			a.conn = rapid.IntRange(0, len(sc.initial)-1).Draw(rt, "act-conn")
-			switch rapid.IntRange(0, 9).Draw(rt, "dialogue") {
+			switch rapid.IntRange(0, 14).Draw(rt, "dialogue") {
 			case 0: // SYNC first
 				a.steps = []step{{kind: stSync}, {kind: stConnect, obs: sc.drawAddrs(rt, "obs", 1, true)}}
 			case 1: // CONNECT twice
@@ -369,6 +369,7 @@ type hpRun struct {
 	nontr    bool
 	mu       sync.Mutex
 	sentObs  [][]ma.Multiaddr // ObsAddrs the local initiator put into its CONNECT messages
+	gotConn  []dcutrOpen      // CONNECT messages the local initiator sent: over which conn, when
 }
 
 func (r *hpRun) label(l string) {
@@ -520,6 +521,9 @@ func (r *hpRun) playReply(c *conn, remote *memnet.Conn) {
 	}
 	r.mu.Lock()
 	r.sentObs = append(r.sentObs, sent)
+	if m.GetType() == pb.HolePunch_CONNECT {
+		r.gotConn = append(r.gotConn, dcutrOpen{c: c, at: time.Now()})
+	}
 	r.mu.Unlock()
 	switch rp.kind {
 	case rpConnect:
@@ -546,6 +550,10 @@ func (r *hpRun) playReply(c *conn, remote *memnet.Conn) {
 }
 
 const hpPeerHorizon = 260 * time.Second
+
+// kfInitiatorDirect: DirectConnect keeps going after its direct-dial stage timed out although a
+// direct connection has arrived meanwhile, and opens the DCUtR stream over that direct connection.
+const kfInitiatorDirect = "C12-holepunch-initiator-coordinates-over-direct-conn"
 
 func runHP(t *testing.T, rt *rapid.T, name string, sc *hpScenario) {
 	r := &hpRun{rt: rt, sc: sc, scripts: map[string]hpAddr{}, setup: map[string]hpInit{}, labels: map[string]bool{}}
@@ -896,30 +904,36 @@ func (r *hpRun) judge() {
 		r.nontr = true
 		r.label(fmt.Sprintf("initiator-attempts-%d", min(n, 4)))
 	}
-	w.mu.Lock()
-	opened := append([]dcutrOpen(nil), w.dcutr...)
-	w.mu.Unlock()
-	for _, o := range opened {
+	// 5. the initiator coordinates (sends CONNECT) only over a relayed connection. A direct
+	//    connection that appears at the very instant the stream is opened is a genuine race and
+	//    is not judged.
+	r.mu.Lock()
+	got := append([]dcutrOpen(nil), r.gotConn...)
+	r.mu.Unlock()
+	excluded := false
+	for _, o := range got {
 		if o.c.cls.proxy() {
-			r.label("initiator-stream-on-relayed-conn")
-		} else {
-			r.label("initiator-stream-on-direct-conn(not-asserted)")
-			if os.Getenv("C12_DEBUG") != "" {
-				fmt.Printf("DEBUG initiator stream on direct conn #%d at %v\nscenario: %s\nconns:%s\ndials:%s\n", o.c.seq, o.at.Sub(t0), sc, w.describeConns(), w.describeDials())
-				for _, c := range connects {
-					fmt.Printf("  Connect at=%v end=%v addrs=%v err=%v\n", c.at.Sub(t0), c.end.Sub(t0), c.addrs, c.err)
-				}
-				for i, d := range r.dcs {
-					fmt.Printf("  DirectConnect#%d %v..%v err=%v\n", i, d.start.Sub(t0), d.end.Sub(t0), d.err)
-				}
-			}
+			r.label("initiator-connect-over-relayed-conn")
+			continue
 		}
+		if !o.c.added.Before(o.at) {
+			r.label("initiator-connect-over-direct-conn-same-instant(not-judged)")
+			continue
+		}
+		if kf.Known(kfInitiatorDirect) {
+			excluded = true
+			continue
+		}
+		r.fail("the service sent a DCUtR CONNECT message at %v over the NON-relayed conn #%d (open since %v): hole punching coordinated over a direct connection", o.at.Sub(t0), o.c.seq, o.c.added.Sub(t0))
+	}
+	if excluded {
+		stats.Excluded("TestHolePunch")
 	}
 }
 
 func TestHolePunch(t *testing.T) {
 	name := t.Name()
-	hx.Check(t, 2500, 60000, 0, func(rt *rapid.T) {
+	hx.Check(t, 6000, 120000, 0, func(rt *rapid.T) {
 		runHP(t, rt, name, drawHPScenario(rt))
 	})
 }
